@@ -374,10 +374,16 @@ def congruence(ctx):
                 continue
             goal = f_and(*[x.rel("==", y) for x, y in zip(a["args"], b["args"])])
             r = PR.prove(ctx, goal, timeout_ms=5000, use_cvc5=False, want_model=False)
+            from .poly import Poly
+            same = f_rel(Poly.var(a["var"]) - Poly.var(b["var"]), "==")
             if r["status"] == "proved":
-                from .poly import Poly
-                ctx.hyp(f_rel(Poly.var(a["var"]) - Poly.var(b["var"]), "=="))
+                ctx.hyp(same)
                 merged += 1
+            else:
+                # injectivity: an angle within one window of length <= 2 pi is determined by (cos, sin); log is injective
+                w = a["window"]
+                if a["kind"] == "log" or (w is not None and w[1] - w[0] <= 2):
+                    ctx.hyp(f_iff(same, goal))
     return merged
 
 
